@@ -2,9 +2,15 @@ package props
 
 import (
 	"bytes"
+	"context"
 	"fmt"
+	"os"
 	"path/filepath"
 	"sort"
+	"sync"
+	"sync/atomic"
+
+	"github.com/glebziz/fs_db/pkg/verif"
 
 	"verifharness/internal/dbx"
 	"verifharness/internal/refmodel"
@@ -151,6 +157,121 @@ func c05Bulk(tier string, seed int64, idx int, scratch string) rt.CaseResult {
 	c.AddDistinct(fmt.Sprintf("bulk/%s/%d", modeName(mode), n/1000*1000))
 	if idx == 0 {
 		c.Sample = map[string]any{"keys": n, "mode": modeName(mode)}
+	}
+	return c
+}
+
+func init() {
+	p := Registry["C05"]
+	p.Roles["freshstart"] = Role{N: func(t string) int { return tierN(t, 6, 96) }, Case: c05FreshStart}
+	p.Rule += " Role freshstart: the very first writes into a brand-new (and into a reopened empty) database are 2-12 autocommit Sets and commits released together by a spin barrier; every acknowledged write must be readable at once and the state must be the same after Close and Open (40-100 databases per case)."
+}
+
+// c05FreshStart: first writes into an empty database, issued simultaneously, then a reopen.
+func c05FreshStart(tier string, seed int64, idx int, scratch string) rt.CaseResult {
+	var c rt.CaseResult
+	rng := seqrun.Rng(seed, "C05f", idx)
+	for it := 0; it < tierN(tier, 40, 100) && len(c.Violations) == 0; it++ {
+		rt.Beat()
+		dir := filepath.Join(scratch, fmt.Sprintf("db%d", it))
+		env, err := dbx.Open(dbx.Options{Mode: dbx.Inline, Dir: dir})
+		if err != nil {
+			c.Violate("open-failed", err.Error(), nil)
+			return c
+		}
+		if it%3 == 2 {
+			// an empty database that has been opened before
+			if err := env.Reopen(); err != nil {
+				c.Violate("reopen-failed role=freshstart", err.Error(), nil)
+				return c
+			}
+		}
+		n := 2 + rng.Intn(11)
+		useTx := it%2 == 0
+		type w struct {
+			key string
+			val []byte
+			tx  interface {
+				Commit(ctx context.Context) error
+			}
+			err error
+		}
+		ws := make([]*w, n)
+		for i := range ws {
+			ws[i] = &w{key: fmt.Sprintf("f%d", i), val: seqrun.Content(fmt.Sprintf("fs%d-%d-%d", idx, it, i), 10)}
+			if useTx {
+				tx, err := env.DB.Begin(ctxBg, verif.IsoLevel(rng.Intn(4)))
+				if err != nil {
+					c.Violate("begin-failed", err.Error(), nil)
+					return c
+				}
+				// the write inside the transaction goes to the transaction's own store; the commit is
+				// the first thing that reaches the committed state
+				if err := tx.Set(ctxBg, ws[i].key, ws[i].val); err != nil {
+					c.Violate("write-in-transaction-failed", err.Error(), nil)
+					return c
+				}
+				ws[i].tx = tx
+			}
+		}
+		var ready, wg sync.WaitGroup
+		var goFlag atomic.Bool
+		for _, x := range ws {
+			wg.Add(1)
+			ready.Add(1)
+			go func(x *w) {
+				defer wg.Done()
+				ready.Done()
+				for !goFlag.Load() {
+				}
+				if x.tx != nil {
+					x.err = x.tx.Commit(ctxBg)
+				} else {
+					x.err = env.DB.Set(ctxBg, x.key, x.val)
+				}
+			}(x)
+		}
+		ready.Wait()
+		goFlag.Store(true)
+		wg.Wait()
+		replay := map[string]any{"seed": seed, "case": idx, "database": it, "writers": n, "through_transactions": useTx, "reopened_empty_first": it%3 == 2}
+		check := func(when string) bool {
+			for _, x := range ws {
+				c.Evals++
+				if x.err != nil {
+					c.Violate("first-write-failed role=freshstart", fmt.Sprintf("one of %d simultaneous first writes into an empty database failed: %v", n, x.err), replay)
+					return false
+				}
+				b, gerr := env.DB.Get(ctxBg, x.key)
+				if gerr != nil || !bytes.Equal(b, x.val) {
+					c.Violate("acknowledged-first-write-not-readable "+when, fmt.Sprintf("%s: %d writers wrote their own key into an empty database at the same moment, all were acknowledged; %q reads %s (%v)", when, n, x.key, seqrun.Describe(b), gerr), replay)
+					return false
+				}
+			}
+			ks, kerr := env.DB.GetKeys(ctxBg)
+			if kerr != nil || len(ks) != n {
+				c.Violate("keys-wrong role=freshstart "+when, fmt.Sprintf("%s: GetKeys lists %d keys (%v), %d were written", when, len(ks), kerr, n), replay)
+				return false
+			}
+			return true
+		}
+		ok := check("right after the writes")
+		if ok {
+			if err := env.Reopen(); err != nil {
+				c.Violate("reopen-failed role=freshstart", err.Error(), replay)
+				ok = false
+			} else {
+				ok = check("after Close and Open")
+			}
+		}
+		env.Close()
+		os.RemoveAll(dir)
+		if ok {
+			c.AddDistinct(fmt.Sprintf("freshstart/writers=%d/tx=%v/reopened-empty=%v", n, useTx, it%3 == 2))
+		}
+	}
+	if idx == 0 {
+		c.Sample = map[string]any{"scenario": "simultaneous first writes into an empty database, then a reopen"}
 	}
 	return c
 }
